@@ -216,18 +216,25 @@ func (e StdEng) Dot(x, y Tensor, opts ...FuncOpt) (retVal Tensor, err error) {
 			}
 			return New(FromScalar(ret)), nil
 		case b.IsMatrix():
-			b.T()
-			defer b.UT()
+			// vᵀM = Mᵀv. The transposition is taken on a second header over b's storage:
+			// b itself - possibly shared, possibly lazily transposed already - is left alone
+			bd, ok := b.(*Dense)
+			if !ok {
+				return nil, errors.Errorf("Dot of a vector and a matrix of type %T is not yet implemented", b)
+			}
+			bT := bd.ShallowClone()
+			defer ReturnTensor(bT)
+			bT.T()
 			switch {
 			case reuse != nil && incr != nil:
-				return b.MatVecMul(a, WithReuse(reuse), WithIncr(incr))
+				return bT.MatVecMul(a, WithReuse(reuse), WithIncr(incr))
 			case reuse != nil:
-				return b.MatVecMul(a, WithReuse(reuse))
+				return bT.MatVecMul(a, WithReuse(reuse))
 			case incr != nil:
-				return b.MatVecMul(a, WithIncr(incr))
+				return bT.MatVecMul(a, WithIncr(incr))
 			default:
 			}
-			return b.MatVecMul(a)
+			return bT.MatVecMul(a)
 		default:
 
 		}
